@@ -405,7 +405,7 @@ func runFormat(c *vp.Child) {
 	}
 	// (4) PRNG multi-directive formats
 	r := c.Rand("format")
-	n := c.Pick(100000, 1200000) / c.NB
+	n := c.Pick(100000, 2400000) / c.NB
 	for i := 0; i < n; i++ {
 		np := 1 + r.Intn(4)
 		wild := r.Intn(10) == 0
